@@ -265,6 +265,18 @@ func histString(h []step) string {
 	return strings.Join(p, " ")
 }
 
+// historyBlind: a fresh drawn blind, or one of three fixed base values b_i plus k times the group order - different
+// blinds that are congruent mod N (whatever is keyed by the blind as a number instead of as the byte string it is
+// would confuse them).
+func historyBlind(t *rapid.T) []byte {
+	if rapid.Bool().Draw(t, "freshBlind") {
+		return gen.P384KeyBytes().Draw(t, "blind")
+	}
+	n := elliptic.P384().Params().N
+	base := new(big.Int).SetBytes(bytes.Repeat([]byte{byte(0x21 + gen.Uniform(t, 3, "baseBlind"))}, 20+gen.Uniform(t, 2, "baseLen")*27))
+	return base.Add(base, new(big.Int).Mul(n, big.NewInt(int64(gen.Uniform(t, 3, "k"))))).Bytes()
+}
+
 func TestHistories(t *testing.T) {
 	s := rt.S("histories").SetRule("rapid state machine over {verify(client), finalize(client, origin, anonymous origin ID) with a fresh drawn blind} on 4 client keys (one never verified, one the negation of a verified key), 4 origins (two share an index key), 5 anonymous origin IDs (one of them empty, one byte-equal to the client's issuer origin ID for another origin), verifications with authentic requests whose blind is ff..ff or N+5, failing verifications (another client's request under this client's key), up to 30 steps; model: registered[client], bound[client][index]; invariant after every step: decision == (registered and (index unbound or bound to this ID)), returned ID == reference HKDF value; at the end every accepted pair is replayed (still accepted) and a second ID for a bound index is refused. non-trivial = history containing a rejection followed by a later accept, or a collision between origins sharing an index key; distinct by history")
 	rt.Check(t, 150, 20000, func(t *rapid.T) {
@@ -278,7 +290,7 @@ func TestHistories(t *testing.T) {
 				h = append(h, st)
 			},
 			"finalize": func(t *rapid.T) {
-				h = append(h, step{client: gen.Uniform(t, 4, "client"), origin: gen.Uniform(t, 4, "origin"), anon: gen.Uniform(t, 5, "anon"), blind: gen.P384KeyBytes().Draw(t, "blind")})
+				h = append(h, step{client: gen.Uniform(t, 4, "client"), origin: gen.Uniform(t, 4, "origin"), anon: gen.Uniform(t, 5, "anon"), blind: historyBlind(t)})
 			},
 			"verifyMismatch": func(t *rapid.T) {
 				h = append(h, step{failingVerify: true, client: gen.Uniform(t, 3, "client")})
@@ -304,7 +316,7 @@ func TestHistories(t *testing.T) {
 
 // TestAllShortHistories: bounded-exhaustive enumeration of every history up to a length over a 10-letter alphabet.
 func TestAllShortHistories(t *testing.T) {
-	s := rt.S("all-short-histories").SetRule("EVERY history of length <= 3 (quick) / <= 4 (thorough) over the 16-letter alphabet {verify-mismatch(c2), verify-mismatch(c0), finalize(c0,o0,empty anon ID), verify(c0), verify(c1), finalize(c0,o0,a0), finalize(c0,o0,a1), finalize(c0,o3,a0), finalize(c0,o3,a1), finalize(c0,o1,a0), finalize(c1,o0,a0), finalize(c1,o0,a1), finalize(c2,o0,a0), verify(c0) with an authentic request whose blind is ff..ff, finalize(c0,o0, anon ID := issuer origin ID of (c0,o1))} with fixed blinds; same model and invariants; non-trivial = every history of length >= 2; distinct by construction")
+	s := rt.S("all-short-histories").SetRule("EVERY history of length <= 3 (quick) / <= 4 (thorough) over the 17-letter alphabet {verify-mismatch(c2), verify-mismatch(c0), finalize(c0,o0,empty anon ID), verify(c0), verify(c1), finalize(c0,o0,a0), finalize(c0,o0,a1), finalize(c0,o3,a0), finalize(c0,o3,a1), finalize(c0,o1,a0), finalize(c1,o0,a0), finalize(c1,o0,a1), finalize(c2,o0,a0), verify(c0) with an authentic request whose blind is ff..ff, finalize(c0,o0, anon ID := issuer origin ID of (c0,o1))} with fixed blinds; same model and invariants; non-trivial = every history of length >= 2; distinct by construction")
 	bl := bytes.Repeat([]byte{0x42}, 33)
 	alphabet := []step{
 		{verify: true, client: 0}, {verify: true, client: 1},
@@ -319,6 +331,7 @@ func TestAllShortHistories(t *testing.T) {
 		{failingVerify: true, client: 0},
 		{verify: true, client: 0, oddBlind: 1},     // authentic request made with the blind ff..ff
 		{client: 0, origin: 0, anon: 4, blind: bl}, // anonymous origin ID byte-equal to the issuer origin ID of (c0, o1)
+		{client: 0, origin: 0, anon: 1, blind: new(big.Int).Add(new(big.Int).SetBytes(bl), elliptic.P384().Params().N).Bytes()}, // the blind of the other letters plus the group order
 	}
 	maxLen := 3
 	if rt.Thorough() {
@@ -350,7 +363,7 @@ func TestAllShortHistories(t *testing.T) {
 	rec(nil)
 	s.EvalN(cnt)
 	s.NontrivialEnum(nontrivial)
-	s.MarkExhaustive(fmt.Sprintf("all histories of length <= %d over a 16-letter alphabet", maxLen))
+	s.MarkExhaustive(fmt.Sprintf("all histories of length <= %d over a 17-letter alphabet", maxLen))
 	s.Sample(func() any { return histString([]step{alphabet[0], alphabet[2], alphabet[5], alphabet[4]}) })
 }
 
@@ -447,4 +460,85 @@ func TestManyClients(t *testing.T) {
 		s.NontrivialEnum(int64(len(clients) - 1))
 	}
 	s.Sample(func() any { return map[string]any{"clients": len(clients)} })
+}
+
+// TestManyOrigins: ONE client binds many origins with distinct index keys (a per-client table with a small inline
+// capacity, or one that is rebuilt when it grows, must not lose or confuse bindings). After all bindings a DIFFERENT
+// anonymous origin ID is presented for every origin first (must be refused - a repeat of the accepted pair first could
+// silently re-create a lost binding), then every accepted pair again (must be accepted with the same ID).
+func TestManyOrigins(t *testing.T) {
+	s := rt.S("many-origins").SetRule("one verified client, N origins (quick 8..70 in several sizes, thorough up to 600) with distinct index keys, one binding each in drawn order; afterwards, in drawn order: a different anonymous origin ID for each origin is refused, then each accepted pair is accepted again with the reference ID. non-trivial = every size; distinct by (client, size, order)")
+	u := theUniverse()
+	n := elliptic.P384().Params().N
+	rt.Check(t, 8, 640, func(t *rapid.T) {
+		sizes := []int{8, 9, 10, 17, 33, 70}
+		if rt.Thorough() {
+			sizes = append(sizes, 130, 260, 600)
+		}
+		nOrigins := gen.Pick(t, sizes, "origins")
+		seed := gen.Seed().Draw(t, "seed")
+		stream := rt.NewDRBG(seed)
+		scalar := func() *big.Int {
+			b := make([]byte, 56)
+			if _, err := io.ReadFull(stream, b); err != nil {
+				t.Fatalf("harness: %v", err)
+			}
+			v := new(big.Int).SetBytes(b)
+			return v.Mod(v, new(big.Int).Sub(n, big.NewInt(1))).Add(v, big.NewInt(1))
+		}
+		c := 0
+		att := type3.NewRateLimitedAttester(&memCache{m: map[string]*type3.ClientState{}})
+		if err := att.VerifyRequest(*u.states[c].Request(), u.verifyBl[c], u.clientKeys[c], u.anon[0]); err != nil {
+			rt.Fail(t, "C09/verify", "honest VerifyRequest failed: %v", err)
+			return
+		}
+		idx := make([]*big.Int, nOrigins)
+		for i := range idx {
+			idx[i] = scalar()
+		}
+		finalize := func(o int, anon []byte) ([]byte, error) {
+			blind := scalar().Bytes()
+			requestKey := ref.BlindCompressed(u.clientKeys[c], new(big.Int).SetBytes(blind), ref.ClientBlindCtx)
+			blindedReqKey := ref.BlindCompressed(requestKey, idx[o], ref.IssuerBlindCtx)
+			var id []byte
+			var err error
+			if out := rt.GuardLite(func() { id, err = att.FinalizeIndex(append([]byte{}, u.clientKeys[c]...), blind, blindedReqKey, anon) }); out.Panic != nil {
+				return nil, fmt.Errorf("panic: %v", out.Panic)
+			}
+			return append([]byte{}, id...), err
+		}
+		anonOf := func(o int) []byte { return []byte(fmt.Sprintf("anon-origin-%d", o)) }
+		s.Eval()
+		s.Class(fmt.Sprintf("%d-origins", nOrigins))
+		s.Nontrivial(seed, []byte{byte(nOrigins), byte(nOrigins >> 8)})
+		for _, o := range rapid.Permutation(seq(nOrigins)).Draw(t, "bindOrder") {
+			id, err := finalize(o, anonOf(o))
+			if want := ref.AnonymousIssuerOriginID(u.clientKeys[c], idx[o]); err != nil || !bytes.Equal(id, want) {
+				rt.Fail(t, "C09/many-origins/first-binding", "origin %d of %d: first, unbound pair answered err=%v id=%x want %x", o, nOrigins, err, id, want)
+				return
+			}
+		}
+		for _, o := range rapid.Permutation(seq(nOrigins)).Draw(t, "probeOrder") {
+			if _, err := finalize(o, []byte(fmt.Sprintf("another-anon-%d", o))); err == nil {
+				rt.Fail(t, "C09/many-origins/two-anon-ids", "client with %d bound origins: a second anonymous origin ID is accepted for origin %d", nOrigins, o)
+				return
+			}
+		}
+		for o := 0; o < nOrigins; o++ {
+			id, err := finalize(o, anonOf(o))
+			if want := ref.AnonymousIssuerOriginID(u.clientKeys[c], idx[o]); err != nil || !bytes.Equal(id, want) {
+				rt.Fail(t, "C09/many-origins/binding-lost", "client with %d bound origins: the accepted pair of origin %d is now answered err=%v", nOrigins, o, err)
+				return
+			}
+		}
+		s.Sample(func() any { return map[string]any{"origins": nOrigins} })
+	})
+}
+
+func seq(n int) []int {
+	out := make([]int, n)
+	for i := range out {
+		out[i] = i
+	}
+	return out
 }
